@@ -1,7 +1,8 @@
 #!/usr/bin/env python3
+"""lib/coqmake.py [target.vo ...] : build (all or the given targets)"""
 import sys, os
 sys.path.insert(0, os.path.dirname(os.path.abspath(__file__)))
 import vcheck
-ok, log = vcheck.coq_build()
-print(log[-int(sys.argv[1]) if len(sys.argv) > 1 else -2500:])
+ok, log = vcheck.coq_build(sys.argv[1:] or None)
+print(log[-3000:])
 sys.exit(0 if ok else 1)
